@@ -294,7 +294,7 @@ func (w *world) staleOnly(shards []int, m, k, v string) bool {
 	return !liveHas && goneHas
 }
 
-func (w *world) explainedByDropped(shards []int, f *condT, m, k, v string) bool {
+func (w *world) explainedByDropped(api string, shards []int, f *condT, m, k, v string) bool {
 	sel := map[int]bool{}
 	for _, sh := range shards {
 		sel[sh] = true
@@ -308,8 +308,12 @@ func (w *world) explainedByDropped(shards []int, f *condT, m, k, v string) bool 
 			if k != "" && ((v == "" && t.T[k] == "") || (v != "" && t.T[k] != v)) {
 				continue
 			}
-			if (f.C == "tagEq" && t.T[f.X] != f.Y) || (f.C == "tagNeq" && t.T[f.X] == f.Y) {
-				continue
+			// which paths go through the tombstone-blind iterators: `k != 'v'` is (series of the measurement) minus (series of
+			// k=v); the first operand lists the dropped series, the second (TagValueSeriesIDIterator) does not, so a dropped
+			// series always passes a != filter, whatever its tags. `k = 'v'` and TagValues without a filter go through
+			// TagValueSeriesIDIterator only, which applies tombstones: nothing to explain there.
+			if f.C == "tagEq" || (f.C == "none" && api == "tv") {
+				return false
 			}
 			// still live in the selected shard? then it is not a dropped series there
 			if w.live[sh][s] {
@@ -365,7 +369,7 @@ func (w *world) runQuery(ctx context.Context, q *queryT, exp *expT) (msg string,
 		// per-series path: every extra name is explained by a series that was deleted from the selected shards, matches the
 		// name and the filter, and whose id is still alive in another shard (so the series file does not hide it)
 		for i := range extraM {
-			if !w.explainedByDropped(shards, &q.Filter, extraM[i], extraK[i], extraV[i]) {
+			if !w.explainedByDropped(q.API, shards, &q.Filter, extraM[i], extraK[i], extraV[i]) {
 				return nil
 			}
 		}
